@@ -59,6 +59,7 @@ var Checks = map[string]func(env *Env, rep *Report){
 	"C09": RunC09,
 	"C08": RunC08,
 	"C16": RunC16,
+	"C19": RunC19,
 	"C20": RunC20,
 	"C06": RunC06,
 	"C07": RunC07,
